@@ -463,6 +463,7 @@ int main(void) {
         fputs("end", stdout);
         dump_state(cq, ndirs);
         fputc('\n', stdout);
+        fflush(stdout);   /* keeps crash attribution exact: one line out per line in */
 
         chunkqueue_free(cq[0]);
         chunkqueue_free(cq[1]);
